@@ -70,6 +70,21 @@ pub fn hostile_keys() -> Vec<String> {
         "{\"key\":\"x\"}".into(),
         "null".into(),
     ];
+    // keys that look like something the implementation names itself
+    {
+        use sha1::Digest;
+        let h = sha1::Sha1::digest(b"my-key");
+        let hex: String = h.iter().map(|b| format!("{b:02x}")).collect();
+        v.push(hex.clone()); // the bucket file name of "my-key" ...
+        v.push(hex[4..].to_string()); // ... and its last path component
+        v.push(format!("index-v5/{}/{}/{}", &hex[..2], &hex[2..4], &hex[4..]));
+        v.push("my-key.tmp".into());
+        v.push(".tmpAbCdEf".into());
+        v.push("tmp".into());
+        v.push("content-v2".into());
+        v.push("sha256-47DEQpj8HBSa+/TImW+5JCeuQeRkm5NMpJWZG3hSuFU=".into());
+        v.push("my-key\n0000000000000000000000000000000000000000000000000000000000000000\t{\"key\":\"my-key\"}".into());
+    }
     v.push("k".repeat(256));
     v.push("long/".repeat(900));
     v.push("é".repeat(3000));
@@ -196,6 +211,13 @@ pub fn time_text() -> impl Strategy<Value = String> {
         Just(u64::MAX as u128),
         Just(1u128 << 64),
         Just(u128::MAX),
+        // decimal texts of every length: 10^k - 1, 10^k (k = 1..38)
+        (1u32..39, any::<bool>()).prop_map(|(k, nine)| if nine { 10u128.pow(k) - 1 } else { 10u128.pow(k) }),
+        Just(u32::MAX as u128),
+        Just(1u128 << 32),
+        Just((1u128 << 53) + 1),
+        Just(i64::MAX as u128),
+        Just((i64::MAX as u128) + 1),
         any::<u128>(),
         any::<u64>().prop_map(|x| x as u128),
         (1_600_000_000_000u128..1_900_000_000_000u128),
